@@ -337,15 +337,48 @@ theorem asMarker_val {n : Node} {m : Marker} (h : n.asMarker = some m) : n.val =
   · simp only [Option.some.injEq] at h; subst h; simpa [Marker.toVal]
   · simp at h
 
+/-- the body of the outer loop behind the `inner_depth` update (`ms` = the state with the updated
+    `innerDepth`), as a function of its own: lets proofs name that state before unfolding -/
+def matchOuterBody (fns : Nat → Option Wrap) (mk : Char) (room minIdx k : Nat) (ms : MatchSt) :
+    Except RPanic MatchSt :=
+  match ms.children[minIdx + k]? with
+  | none => .error .index
+  | some tok =>
+    match tok.asMarker with
+    | none => matchOuter fns mk room minIdx k ms
+    | some opener =>
+      let go : Except RPanic (Marker × MatchSt) :=
+        if opener.open_ && opener.marker == ms.closer.marker && !isOddMatch opener ms.closer then
+          matchInner fns mk room (minIdx + k) ms.closer.remaining opener ms
+        else .ok (opener, ms)
+      match go with
+      | .error e => .error e
+      | .ok (opener', ms') =>
+        if opener'.remaining > 0 then
+          match replaceAt ms'.children (minIdx + k) opener' with
+          | .error e => .error e
+          | .ok cs => matchOuter fns mk room minIdx k { ms' with children := cs }
+        else matchOuter fns mk room minIdx k ms'
+
+theorem matchOuter_succ (fns : Nat → Option Wrap) (mk : Char) (room minIdx k : Nat) (ms0 : MatchSt) :
+    matchOuter fns mk room minIdx (k + 1) ms0 =
+      match ms0.children[minIdx + k + 1]? with
+      | none => .error .index
+      | some nxt =>
+        matchOuterBody fns mk room minIdx k
+          { ms0 with innerDepth := max ms0.innerDepth (wrapDepth nxt) } := by
+  rw [matchOuter]
+  rfl
+
 /-- what the matching loops maintain -/
 structure MatchOK (P : Val → Prop) (ms : MatchSt) : Prop where
   children : AllValsList P ms.children
   closer : P ms.closer.toVal
 
 theorem matchInner_vals {cfg : Cfg} {P : Val → Prop} (g : GoodP cfg P) {mk : Char} {csw : Bool}
-    (hmem : RuleId.emph mk csw ∈ cfg.chain) (fns : Nat → Option Wrap) (idx : Nat) :
+    (hmem : RuleId.emph mk csw ∈ cfg.chain) (fns : Nat → Option Wrap) (room idx : Nat) :
     ∀ (fuel : Nat) (opener : Marker) (ms : MatchSt) (opener' : Marker) (ms' : MatchSt),
-      matchInner fns mk idx fuel opener ms = .ok (opener', ms') →
+      matchInner fns mk room idx fuel opener ms = .ok (opener', ms') →
       P opener.toVal → MatchOK P ms → P opener'.toVal ∧ MatchOK P ms' := by
   intro fuel
   induction fuel with
@@ -357,7 +390,10 @@ theorem matchInner_vals {cfg : Cfg} {P : Val → Prop} (g : GoodP cfg P) {mk : C
     intro opener ms opener' ms' h ho hm
     unfold matchInner at h
     split at h
-    · simp only at h
+    · split at h
+      · simp only [Except.ok.injEq, Prod.mk.injEq] at h
+        obtain ⟨rfl, rfl⟩ := h; exact ⟨ho, hm⟩
+      simp only at h
       split at h
       · simp only [Except.ok.injEq, Prod.mk.injEq] at h
         obtain ⟨rfl, rfl⟩ := h; exact ⟨ho, hm⟩
@@ -409,8 +445,8 @@ theorem matchInner_vals {cfg : Cfg} {P : Val → Prop} (g : GoodP cfg P) {mk : C
       obtain ⟨rfl, rfl⟩ := h; exact ⟨ho, hm⟩
 
 theorem matchOuter_vals {cfg : Cfg} {P : Val → Prop} (g : GoodP cfg P) {mk : Char} {csw : Bool}
-    (hmem : RuleId.emph mk csw ∈ cfg.chain) (fns : Nat → Option Wrap) (minIdx : Nat) :
-    ∀ (k : Nat) (ms ms' : MatchSt), matchOuter fns mk minIdx k ms = .ok ms' →
+    (hmem : RuleId.emph mk csw ∈ cfg.chain) (fns : Nat → Option Wrap) (room minIdx : Nat) :
+    ∀ (k : Nat) (ms ms' : MatchSt), matchOuter fns mk room minIdx k ms = .ok ms' →
       MatchOK P ms → MatchOK P ms' := by
   intro k
   induction k with
@@ -418,13 +454,18 @@ theorem matchOuter_vals {cfg : Cfg} {P : Val → Prop} (g : GoodP cfg P) {mk : C
     intro ms ms' h hm
     simp only [matchOuter, Except.ok.injEq] at h; subst h; exact hm
   | succ k ih =>
-    intro ms ms' h hm
+    intro ms0 ms' h hm0
     unfold matchOuter at h
     simp only at h
     split at h
     · simp at h
+    next nxt hnxt =>
+    have hm : MatchOK P { ms0 with innerDepth := max ms0.innerDepth (wrapDepth nxt) } :=
+      ⟨hm0.children, hm0.closer⟩
+    split at h
+    · simp at h
     · next tok htok =>
-      have htokOK := hm.children.getElem? htok
+      have htokOK := hm0.children.getElem? htok
       split at h
       · exact ih _ _ h hm
       · next opener hop =>
@@ -435,7 +476,7 @@ theorem matchOuter_vals {cfg : Cfg} {P : Val → Prop} (g : GoodP cfg P) {mk : C
         · next opener' ms1 hgo =>
           have hgo' : P opener'.toVal ∧ MatchOK P ms1 := by
             split at hgo
-            · exact matchInner_vals g hmem fns _ _ _ _ _ _ hgo hPo hm
+            · exact matchInner_vals g hmem fns _ _ _ _ _ _ _ hgo hPo hm
             · simp only [Except.ok.injEq, Prod.mk.injEq] at hgo
               obtain ⟨rfl, rfl⟩ := hgo; exact ⟨hPo, hm⟩
           split at h
@@ -454,8 +495,8 @@ theorem matchOuter_vals {cfg : Cfg} {P : Val → Prop} (g : GoodP cfg P) {mk : C
           · exact ih _ _ h hgo'.2
 
 theorem scanAndMatch_vals {cfg : Cfg} {P : Val → Prop} (g : GoodP cfg P) {mk : Char} {csw : Bool}
-    (hmem : RuleId.emph mk csw ∈ cfg.chain) {fns : Nat → Option Wrap} {cs out : List Node}
-    {b b' : List (Char × List Nat)} (h : scanAndMatch fns mk cs b = .ok (out, b'))
+    (hmem : RuleId.emph mk csw ∈ cfg.chain) {fns : Nat → Option Wrap} {room : Nat} {cs out : List Node}
+    {b b' : List (Char × List Nat)} (h : scanAndMatch fns mk room cs b = .ok (out, b'))
     (hc : AllValsList P cs) : AllValsList P out := by
   unfold scanAndMatch at h
   split at h
@@ -482,7 +523,7 @@ theorem scanAndMatch_vals {cfg : Cfg} {P : Val → Prop} (g : GoodP cfg P) {mk :
           · split at h
             · simp at h
             · next ms hms =>
-              have hok := matchOuter_vals g hmem fns _ _ _ _ hms
+              have hok := matchOuter_vals g hmem fns _ _ _ _ _ hms
                 ⟨hc.left, by rw [← hval]; exact ((AllVals_eq P closerTok).mp hct).1⟩
               split at h
               · simp only [Except.ok.injEq, Prod.mk.injEq] at h; rw [← h.1]
